@@ -97,6 +97,20 @@ extern "C" int sim_main(int argc, char** argv) {
       world.barrier();
     }
     MPI_Comm_free(&subc);
+    // a communicator over the SAME processes in another rank order: the ygm rank must be the MPI rank in THAT communicator
+    MPI_Comm revc; MPI_Comm_split(MPI_COMM_WORLD, 0, ws - 1 - wr, &revc);
+    {
+      int mr; MPI_Comm_rank(revc, &mr);
+      ygm::comm rev(revc);
+      ygm::container::map<int64_t, int> mr_(rev);
+      hc::rng g2(atol(argv[3]) + 7);
+      for (long k = 0; k < nkeys; ++k) { int64_t key = (int64_t)g2.below(1000); if (mr == 0) mr_.async_insert(key, 3); }
+      rev.barrier();
+      std::ostringstream c; c << "mapr"; mr_.for_all([&](const int64_t& k, int& v) { c << " " << k << ":" << std::hash<int64_t>{}(k) % (size_t)ws; });
+      hc::out(c.str() + " | " + std::to_string(mr) + " " + std::to_string(rev.rank()) + " " + std::to_string(mr_.owner(0)));
+      rev.barrier();
+    }
+    MPI_Comm_free(&revc);
   } else {  // hash owners of generated keys, through every hash-partitioned container
     long nkeys = atol(argv[2]); hc::rng g(atol(argv[3]));
     ygm::container::map<int64_t, int> mi(world); ygm::container::map<std::string, int> ms(world);
